@@ -1,8 +1,11 @@
 #!/bin/bash
-# usage: tools_mut.sh <prop> <file> <sed-expr> ; applies a mutation to /repo, runs the quick check, reverts
-prop=$1; file=$2; expr=$3
-cd /repo && sed -i "$expr" "$file" && git diff --stat | tail -1
-if git diff --quiet; then echo "MUTATION DID NOT APPLY"; exit 3; fi
-cd /verif && timeout 1500 bin/check $prop --tier quick 2>&1 | grep -E "VIOLATION|KNOWN|INFRA|drift|Error" | cut -c1-400 | head -8
+# usage: tools_mut.sh <prop> <file> <sed-expr> [tier]; applies a mutation in a scratch worktree of /repo, runs the check there, removes it
+prop=$1; file=$2; expr=$3; tier=${4:-quick}
+wt=/tmp/wt_mut_$$
+git -C /repo worktree add -q --detach $wt HEAD || exit 3
+cd $wt && sed -i "$expr" "$file"
+if git -C $wt diff --quiet; then echo "MUTATION DID NOT APPLY"; git -C /repo worktree remove --force $wt; exit 3; fi
+git -C $wt diff --stat | tail -1
+cd /verif && VERIF_REPO=$wt timeout 3000 bin/check $prop --tier $tier 2>&1 | grep -E "VIOLATION|KNOWN|INFRA|drift|Error" | cut -c1-300 | head -4
 echo "exit=${PIPESTATUS[0]}"
-cd /repo && git checkout -- . 
+git -C /repo worktree remove --force $wt
